@@ -27,6 +27,7 @@ import (
 
 	"github.com/lindb/lindb/constants"
 	"github.com/lindb/lindb/coordinator/storage"
+	"github.com/lindb/lindb/internal/verifhook"
 	"github.com/lindb/lindb/metrics"
 	"github.com/lindb/lindb/models"
 	protoReplicaV1 "github.com/lindb/lindb/proto/gen/v1/replica"
@@ -145,6 +146,7 @@ func (r *remoteReplicator) IsReady() bool {
 		if r.isSuspend.CompareAndSwap(false, true) {
 			r.statistics.FollowerOffline.Incr()
 			r.state.Store(&state{state: models.ReplicatorFailureState, errMsg: "follower node is offline"})
+			verifhook.Yield("c08-suspend-marked")
 			<-r.suspend // wait follower node online
 		}
 		return r.IsReady() // check replicator is ready now
